@@ -284,6 +284,12 @@ func render(v ssa.Value, d int, onstack map[ssa.Value]bool) string {
 		if t, ok := inlineHelper(x, 0); ok {
 			return t
 		}
+		// h.Values(k) is h[CanonicalHeaderKey(k)]
+		if len(x.Call.Args) == 2 && !x.Call.IsInvoke() {
+			if n := calleeName(&x.Call); n == "(http.Header).Values" || n == "(textproto.MIMEHeader).Values" {
+				return r(x.Call.Args[0]) + "[call:http.CanonicalHeaderKey(" + r(x.Call.Args[1]) + ")]"
+			}
+		}
 		return callString(&x.Call, r)
 	case *ssa.Extract:
 		if c, ok := x.Tuple.(*ssa.Call); ok {
